@@ -688,6 +688,187 @@ def factories(ast):
     return out
 
 
+def type_bodies(ast):
+    """every definition of a member function type() in the library: class -> body (expression tree)"""
+    rows = {}
+    for n, p in ast.nodes:
+        if n.get("kind") != "CXXMethodDecl" or n.get("name") != "type" or not has_body(n) or children(n, "ParmVarDecl"):
+            continue
+        names = [x for x in p if isinstance(x, str)]
+        if not names or names[0] != "ipr" or "iprv_uses" in names:
+            continue
+        cls = class_key(p)
+        pd = ast.ids.get(n.get("parentDeclContextId")) if n.get("parentDeclContextId") else None
+        if pd is not None and pd.get("name"):
+            # defined out of line: the lexical path is the namespace, the semantic parent is the class
+            cls = (cls + "::" if cls else "") + pd["name"]
+        stmts = children(body_of(n))
+        if len(stmts) == 1 and stmts[0].get("kind") == "ReturnStmt" and children(stmts[0]):
+            body = cexpr(ast, children(stmts[0])[0], [])
+        else:
+            body = ["CUnknown", "statements:%d" % len(stmts)]
+        txt = json.dumps(body)
+        old = rows.get(cls)
+        if old is None:
+            rows[cls] = body
+        elif old != body:
+            if "CUnknown" in json.dumps(old) and "CUnknown" not in txt:
+                rows[cls] = body                      # an instantiation replaces the dependent pattern
+            elif "CUnknown" in txt:
+                pass
+            elif old[0] == "CCall" and body[0] == "CCall" and old[1].endswith("::type") and body[1].endswith("::type") and old[2] == body[2]:
+                pass                                  # instantiations that differ only in the static type of the callee
+            else:
+                rows[cls] = ["CUnknown", "instantiations-differ"]
+    return rows
+
+
+def impl_defs(ast):
+    """ipr::impl class / alias name -> the type expressions it is defined from (alias target or bases)"""
+    defs = {}
+    for n, p in ast.nodes:
+        names = [x for x in p if isinstance(x, str)]
+        if names[:2] != ["ipr", "impl"] or len(names) > 3:
+            continue
+        k = n.get("kind")
+        if k == "TypeAliasDecl":
+            defs.setdefault(n["name"], []).append(n["type"]["qualType"])
+        elif k == "CXXRecordDecl" and n.get("completeDefinition") and n.get("bases"):
+            defs.setdefault(n["name"], []).extend(b["type"]["qualType"] for b in n["bases"])
+    return defs
+
+
+def type_classes(ast, cats, bodies):
+    """for every node category K: the class whose type() body a node built as impl::K runs — found by walking the
+    definition of impl::K (alias targets, bases, template arguments used as bases, in that order) to the first
+    class that defines type().  Declarations are stored as decl_rep<impl::K>, whose type() comes first."""
+    defs = impl_defs(ast)
+
+    def tokens(t):
+        return re.findall(r"(?:ipr::)?(?:impl::|util::|cxx_form::)*[A-Za-z_]\w*", t)
+
+    def visit(tok, seen, depth=0):
+        if depth > 40:
+            return None
+        iface = tok.startswith("ipr::") and "impl::" not in tok
+        name = tok.split("::")[-1]
+        if iface:
+            return name if name in bodies else None
+        if ("impl", name) in seen:
+            return None
+        seen.add(("impl", name))
+        if name == "Decl":
+            return "impl::decl_rep" if "impl::decl_rep" in bodies else None
+        if "impl::" + name in bodies:
+            return "impl::" + name
+        for d in defs.get(name, []):
+            for t in tokens(d):
+                r = visit(t, seen, depth + 1)
+                if r:
+                    return r
+        return None
+    out = {}
+    for c in cats:
+        out[c] = visit("impl::" + c, set()) if c in defs else None
+    return out
+
+
+def _strip_casts(e):
+    while e.get("kind") in ("ImplicitCastExpr", "ParenExpr", "MaterializeTemporaryExpr", "ExprWithCleanups", "CXXBindTemporaryExpr") and children(e):
+        e = children(e)[0]
+    return e
+
+
+def _describe_ptr(e):
+    e = _strip_casts(e)
+    k = e.get("kind")
+    if k == "MemberExpr":
+        inner = children(e)
+        if not inner or _strip_casts(inner[0]).get("kind") == "CXXThisExpr":
+            return "this." + e.get("name", "?")
+        return _describe_ptr(inner[0]) + "." + e.get("name", "?")
+    if k == "CXXThisExpr":
+        return "this"
+    if k in ("CallExpr", "CXXMemberCallExpr") and children(e):
+        f = _strip_casts(children(e)[0])
+        return "call:" + str(f.get("name") or f.get("referencedDecl", {}).get("name"))
+    if k == "DeclRefExpr":
+        return "local:" + str(e.get("referencedDecl", {}).get("name"))
+    if k in ("CXXFunctionalCastExpr", "CStyleCastExpr", "CXXStaticCastExpr", "CXXReinterpretCastExpr", "CXXUnresolvedConstructExpr") and children(e):
+        return "cast(" + _describe_ptr(children(e)[-1]) + ")"
+    return str(k)
+
+
+def _owner_class(ast, n, p):
+    cls = class_key(p)
+    pd = ast.ids.get(n.get("parentDeclContextId")) if n.get("parentDeclContextId") else None
+    if pd is not None and pd.get("name"):
+        cls = (cls + "::" if cls else "") + pd["name"]
+    return cls
+
+
+def raw_derefs(ast):
+    """every place where a const member function of the library dereferences a pointer (unary * or ->) that is
+    neither `this` nor the result of util::check: (class, function) -> what is dereferenced"""
+    rows = {}
+    for n, p in ast.nodes:
+        if n.get("kind") != "CXXMethodDecl" or not has_body(n):
+            continue
+        names = [x for x in p if isinstance(x, str)]
+        if names[:1] != ["ipr"] or "util" in names or "iprv_uses" in names:
+            continue
+        if ") const" not in n.get("type", {}).get("qualType", ""):
+            continue
+        cls = _owner_class(ast, n, p)
+        for m, _ in walk(body_of(n)):
+            k = m.get("kind")
+            tgt = None
+            if k == "UnaryOperator" and m.get("opcode") == "*" and children(m):
+                tgt = children(m)[0]
+            elif k == "MemberExpr" and m.get("isArrow") and children(m):
+                tgt = children(m)[0]
+            if tgt is None or _strip_casts(tgt).get("kind") == "CXXThisExpr":
+                continue
+            d = _describe_ptr(tgt)
+            if d.startswith("call:check"):
+                continue
+            rows.setdefault(cls + "::" + n.get("name", "?"), set()).add(d)
+    return {k: sorted(v) for k, v in sorted(rows.items())}
+
+
+def seq_gets(ast):
+    """the positional access function get(Index) of every Sequence implementation: which safeguards its body uses"""
+    rows = {}
+    for n, p in ast.nodes:
+        if n.get("kind") != "CXXMethodDecl" or n.get("name") != "get" or not has_body(n) or len(children(n, "ParmVarDecl")) != 1:
+            continue
+        names = [x for x in p if isinstance(x, str)]
+        if names[:2] != ["ipr", "impl"]:
+            continue
+        cls = _owner_class(ast, n, p)
+        feats = set()
+        for m, _ in walk(body_of(n)):
+            k = m.get("kind")
+            if k == "CXXThrowExpr":
+                feats.add("throw")
+            elif k == "IfStmt":
+                feats.add("if")
+            elif k in ("CXXMemberCallExpr", "CallExpr") and children(m):
+                f = _strip_casts(children(m)[0])
+                nm = f.get("name") or f.get("referencedDecl", {}).get("name")
+                if nm in ("at", "get", "size", "advance", "check", "front"):
+                    feats.add(nm)
+            elif k in ("CXXOperatorCallExpr", "ArraySubscriptExpr"):
+                txt = json.dumps(m)[:4000]
+                if k == "ArraySubscriptExpr" or "operator[]" in txt:
+                    feats.add("subscript")
+            elif k == "CXXDependentScopeMemberExpr" and m.get("member") in ("at", "get", "size"):
+                feats.add(m.get("member"))
+        old = rows.get(cls)
+        rows[cls] = sorted(feats | set(old or []))
+    return rows
+
+
 def accessor_names(ast):
     """names of the const, parameterless member functions of the interface classes"""
     names = {}
@@ -813,6 +994,10 @@ def extract(workdir):
     facts["factories"] = factories(impl)
     facts["accessor_names"] = accessor_names(impl)
     facts["iface_shapes"] = iface_shapes(impl)
+    facts["raw_derefs"] = raw_derefs(impl)
+    facts["seq_gets"] = seq_gets(impl)
+    facts["type_bodies"] = type_bodies(impl)
+    facts["type_classes"] = type_classes(impl, facts["categories"], facts["type_bodies"])
     return facts, asts
 
 
